@@ -3,7 +3,7 @@
 Rib.tla (the RIB model of C02/C06/C15, with the decision process and the ECMP set) gives, in every state, the next-hop set the
 FIB must hold per prefix (fib = next hops of EcmpSet) and the number of paths using each next hop (reg).  Random behaviours of
 the model (insert / replace / remove / peer drop / stale marking and purge / LLGR marking and purge / next-hop reachability
-flips over three peers and shared next hops) are replayed through the real TableManager with a readable kernel handle
+flips / soft reset IN under an import policy that sets the next hop, over three peers and shared next hops) are replayed through the real TableManager with a readable kernel handle
 (cfg-guarded constructor in the kernel crate); after every operation the request stream is drained and folded, and compared
 with the model."""
 import json
@@ -14,7 +14,7 @@ import vf
 from riblib import Cfg, CLASSES, SESSIONS, PEER_ADDR, PREFIXES, NEXTHOPS
 
 LEVEL = "exploration"
-OPS = ["insert", "remove", "drop", "markstale", "dropstale", "markllgr", "dropllgr", "nhflip"]
+OPS = ["insert", "remove", "drop", "markstale", "dropstale", "markllgr", "dropllgr", "nhflip", "softreset"]
 
 
 def header(cfg):
@@ -43,6 +43,8 @@ def op_line(cfg, o):
     if k == "nhflip":
         return f"nhflip {o['nh']} {1 if o['up'] else 0}"
     sess = next(x for x in cfg.sessions if SESSIONS[x]["peer"] == o["peer"])
+    if k == "softreset":
+        return f"softreset {sess} {o['to']}"
     return f"{k} {sess}"
 
 
@@ -124,5 +126,7 @@ def main(c):
     c.cov["rule"] = ("random behaviours of Rib.tla over 2 prefixes, 3 peers (one with two successive sessions / two path ids), attribute "
                      "classes that tie / win / lose, 2-3 shared next hops, import-policy rejection; distinct = replayed behaviours")
     c.assumptions += ["IPv4 unicast only: the VRF clause (VPN prefixes installed per VRF with matching import targets) is not covered",
-                      "soft reset with a next-hop-setting import policy is not in the operation set",
+                      "a next-hop-setting import policy cannot be configured (build_assignment refuses it); the soft-reset operation "
+                      "installs one built as an export-direction assignment, as the only way to exercise the quantifier's "
+                      "'soft reset with next-hop-changing policy'",
                       "the kernel service's own reference counting (run_service_loop) is represented by folding register/unregister requests"]
